@@ -89,6 +89,18 @@ Definition faithful_obs (c : tg_case) : bool :=
 
 Definition prop_faithful (c : tg_case) : bool :=
   if hyp_coincidence_free c then faithful_obs c else true.
+(** the same without the skeleton-consistency hypothesis: whenever generation succeeds every id is
+    faithfully represented.  On same-path families whose members differ this can only fail when
+    [types_equal] wrongly judged them equal - the recorded finding F3 (classifier
+    [known_F3_conflation]: generation succeeded although the family is not skeleton-consistent; the
+    driver attributes a failure to it only if the model reproduces the implementation's output) *)
+Definition prop_faithful_all (c : tg_case) : bool :=
+  if V.Model.Shape.root_freshb (settings_of (tg_spec c)) then faithful_obs c else true.
+Definition known_F3_conflation (c : tg_case) : bool :=
+  match tg_gen c with
+  | OOk _ => negb (V.Model.Shape.skeleton_consistentb (tg_reg c) (settings_of (tg_spec c)))
+  | _ => false
+  end.
 Definition prop_syn_parses (c : tg_case) : bool := tg_syn_ok c.
 Definition parsed (c : tg_case) : option pmod :=
   match tg_gen c with OOk t => parse_module t | _ => None end.
